@@ -25,3 +25,6 @@ G('dr.dround_ddur.WD', 'dround', 'dround_ddur', ['C16'], ins=[('uint32_t', 'in_n
   setup='struct dt_d_s d = {DT_DUNK}; d.typ = DT_DAISY; d.daisy = in_n; struct dt_ddur_s dur = {DT_DURUNK}; dur.durtyp = DT_DURYMCW; dur.ymcw.w = in_w; dur.neg = in_neg & 1;',
   call='dround_ddur(d, dur, in_next & 1)', ret='struct dt_d_s', replace=['dt_dconv', 'dt_get_wday', 'dt_dur_neg_p'], timeout=600,
   sweep={'in_n': '8 + RND % 911260', 'in_w': 'RND % 9', 'in_neg': 'RND % 2', 'in_next': 'RND % 2'})
+
+# sxround_dur_cocl (co-class rounding of epoch values): contract written in contracts/dround.contracts.h; its groups (64-bit remainder by a
+# symbolic step, even bounded to t < 2^32) did not discharge in 800 s per unit and are not registered (seed C16_3 is missed)
